@@ -28,6 +28,9 @@ FRAMINGS = {
                  "were handled correctly before.",
     "state": "STATE PLACEMENT. The edit moves a value to a different lifetime or owner (local -> attribute, attribute -> class attribute, "
              "per-call -> module level, module level -> default argument, per-file -> per-run, copied -> shared reference) for a plausible reason.",
+    "contract": "an INTERNAL CONTRACT drift. The edit changes what an internal helper returns or accepts in a corner (None vs empty, "
+                "tuple vs list, rounded vs exact, clamped vs raised, str vs object, 0 vs False, a new optional parameter with a default) "
+                "and updates most but not all of its callers, or a caller starts to rely on something the helper never promised.",
     "ordering": "an ORDERING change. The edit re-orders two steps, or the traversal / iteration / sort order of something, for a plausible reason; "
                 "each order is fine for most inputs.",
 }
